@@ -381,6 +381,64 @@ fn g4_histories(rep: &mut Report) -> u64 {
     n
 }
 
+/// G5: two tables whose (table, column) names run into each other when they
+/// are written next to each other with any separator; each must reopen with
+/// its own schema.
+fn g5_name_pairs(rep: &mut Report) -> u64 {
+    use crate::e1::{linear_history_checks, Config, Monitors};
+    let cfg = Config {
+        property: "C06",
+        seed: None,
+        ptype: 0,
+        setup: vec![],
+        alphabet: vec![],
+        probes: vec![],
+        stream_names: vec![],
+        max_depth: 0,
+        wall_cap: std::time::Duration::from_secs(60),
+        monitors: Monitors { model: true, roundtrip: true, ..Monitors::default() },
+        merge_audits: 0,
+        nodedup_depth: 0,
+    };
+    let mk = |t: &str, c: &str, variant: usize| Op::CreateTable {
+        name: t.to_string(),
+        cols: vec![
+            ColSpec::new("K", Ty::I16).key(),
+            if variant == 0 { ColSpec::new(c, Ty::Str(20)).nullable().category("Identifier").enums(&["a", "b"]) } else { ColSpec::new(c, Ty::I32).nullable().range(-5, 5) },
+        ],
+    };
+    let mut pairs: Vec<(String, String, String, String)> = Vec::new();
+    for sep in [".", "_", "", "__", ".."] {
+        pairs.push((format!("Aa{}Bb", sep), "Cc".into(), "Aa".into(), format!("Bb{}Cc", sep)));
+        pairs.push((format!("Aa{}Bb", sep), format!("Cc{}Dd", sep), format!("Aa{}Bb{}Cc", sep, sep), "Dd".into()));
+    }
+    pairs.push(("Aa".into(), "Bb".into(), "Bb".into(), "Aa".into()));
+    pairs.push(("Aa".into(), "Bb".into(), "Aa_".into(), "Bb".into()));
+    pairs.push(("Tab".into(), "Col".into(), "TAB".into(), "COL".into()));
+    pairs.push(("Tab".into(), "Col".into(), "Tab1".into(), "Col".into()));
+    let fr = crate::e1::fresh(0);
+    let mut jobs: Vec<Vec<Op>> = Vec::new();
+    for (t1, c1, t2, c2) in &pairs {
+        for order in 0..2 {
+            let a = mk(t1, c1, 0);
+            let b = mk(t2, c2, 1);
+            let mut ops = if order == 0 { vec![a, b] } else { vec![b, a] };
+            jobs.push(ops.clone());
+            ops.push(Op::Reopen);
+            ops.push(Op::DropTable { name: t1.clone() });
+            jobs.push(ops);
+        }
+    }
+    let results: Vec<Vec<crate::report::Violation>> = jobs.par_iter().map(|ops| linear_history_checks(&cfg, &fr, ops)).collect();
+    for vs in results {
+        for mut v in vs {
+            v.signature = format!("name-pair:{}", v.signature);
+            rep.violations.push(v);
+        }
+    }
+    jobs.len() as u64
+}
+
 pub fn run(tier: Tier) -> i32 {
     let mut rep = Report::new("C06", tier, "model_checking");
     rep.assume("a column's stored form is two independent records (type word in _Columns; one _Validation row), so the product is factored: G1 = every string width x 8 flag combinations x 3 categories, G2 = ranges x categories x enum lists x foreign keys x nullable x type, G3 = column lists and names");
@@ -417,8 +475,10 @@ pub fn run(tier: Tier) -> i32 {
     rep.set("g3_list_and_name_tables", n3);
     let n4 = g4_histories(&mut rep);
     rep.set("g4_create_after_history", n4);
+    let n5 = g5_name_pairs(&mut rep);
+    rep.set("g5_colliding_name_pairs", n5);
     rep.set("exhaustive", true);
-    rep.set("rule", "G4: the same create_table after every history of <= 4 steps over {create T, create U, drop T, drop U, reopen, drop+reopen, flush, insert}, then saved three ways and reopened. G1-G3: each case = one create_table on a fresh package; accepted: all attribute getters equal the request immediately and after save + reopen (foreign key via the decoder); refused: package identical to a fresh one. G1: every string width in the tier's set (thorough: all 0..=65535) x {nullable,key,localizable} x {none,Text,Binary}, both integer types; G2: 7 ranges x 27 categories x 10 enum lists x 6 foreign keys x nullable x 3 types; G3: every column count 1..33 with the key first/middle/last, no key, duplicate names, column and table names of every length 1..66. distinct_nontrivial = tables accepted and round-tripped");
+    rep.set("rule", "G5: pairs of tables whose table and column names run into each other under concatenation with the separators '.', '_', '', '__', '..' (and swapped / case-only / prefix pairs), created in both orders, saved three ways, reopened, one of them dropped. G4: the same create_table after every history of <= 4 steps over {create T, create U, drop T, drop U, reopen, drop+reopen, flush, insert}, then saved three ways and reopened. G1-G3: each case = one create_table on a fresh package; accepted: all attribute getters equal the request immediately and after save + reopen (foreign key via the decoder); refused: package identical to a fresh one. G1: every string width in the tier's set (thorough: all 0..=65535) x {nullable,key,localizable} x {none,Text,Binary}, both integer types; G2: 7 ranges x 27 categories x 10 enum lists x 6 foreign keys x nullable x 3 types; G3: every column count 1..33 with the key first/middle/last, no key, duplicate names, column and table names of every length 1..66. distinct_nontrivial = tables accepted and round-tripped");
     rep.sample(json!({"group": cases[0].group, "class": cases[0].class, "columns": cases[0].cols.len()}));
     rep.sample(json!({"group": cases[n1 + 5].group, "class": cases[n1 + 5].class, "first_column": cases[n1 + 5].cols[1]}));
     rep.finish()
